@@ -45,6 +45,19 @@ def run(rep):
             src = merged
         else:
             broken.append({"obligation": "harness:gen_sql_grammar", "detail": outg[-400:]})
+        # ... and the "ends" statements of the SELECT-core correspondence: every keyword as the last word of a list / alias position,
+        # where the parser decides by looking at what FOLLOWS (end of input, `;`, `)`): trailing semicolons must not matter
+        rce, oute = verif.sh(["python3", os.path.join(verif.ROOT, "checks", "gen_selectcore_cases.py"), str(rep.seed), "1"], timeout=600)
+        if rce == 0:
+            ends = []
+            for l in oute.splitlines():
+                hp = l.split("\t")
+                if len(hp) == 2 and hp[1] == "ends":
+                    t = bytes.fromhex(hp[0]).decode("utf-8", "replace")
+                    if ";" not in t and "\n" not in t:
+                        ends.append(t)
+            with open(src, "a", encoding="utf-8", errors="surrogateescape") as f:
+                f.write("\n".join(ends) + "\n")
         outp = os.path.join(verif.BUILD, "relayout_out.txt")
         k = "8" if rep.tier == "quick" else "24"
         rc, err = verif.parallel_map_files([os.path.join(verif.BUILD, "relayout"), "-seed", str(rep.seed), "-k", k, "-soft"], src, outp, timeout=3000)
@@ -77,6 +90,11 @@ def run(rep):
     # the layout theorems are stated over Lexer/LexerModel.v: tie that model to the CURRENT lexer.go (a difference is a broken correspondence)
     import lexcommon
     lexcommon.lexer_premise(rep, broken, ())
+    # C05_fragment_* are stated over Select/SelectParseModel.v + SelectPrintModel.v: tie them to the CURRENT parser and printer
+    import searchcommon
+    b2, summ = searchcommon.run_selectcore(rep, 1500 if rep.tier == "quick" else 20000)
+    broken += b2
+    rep.coverage["selectcore_correspondence"] = summ
     verif.report_broken(rep, broken, found)
     rep.assumptions = ["whitespace is the lexer's own notion (unicode.IsSpace + six ClickHouse code points); a re-layout keeps token boundaries"]
 
